@@ -137,6 +137,29 @@ func c07RandomScenario(r *rand.Rand) c07Sc {
 		sc.GenPanicAt = r.Intn(sc.N + 1)
 	}
 	sc.Saturate = r.Intn(8) == 0
+	if sc.hasReducer() && sc.N > 0 && r.Intn(4) == 0 {
+		used := map[int]bool{}
+		for _, kind := range []string{"nil", "nil-ptr", "empty-string", "false", "empty-struct", "int0"} {
+			at := r.Intn(sc.N)
+			if r.Intn(2) == 0 || used[at] || sc.Items[at].W == 0 {
+				continue
+			}
+			used[at] = true
+			sc.WSpecial = append(sc.WSpecial, c07Special{At: at, Kind: kind})
+		}
+	}
+	// error values with a special meaning inside the library, each at most once per scenario (identity decides)
+	ek := []string{"ctx-canceled", "wrapped-canceled", "wrapped-deadline"}
+	if sc.hasOutput() {
+		ek = append(ek, "wrapped-noout")
+	}
+	for i := range sc.Items {
+		if (sc.Items[i].Act == "cancel" || sc.Items[i].Act == "err") && len(ek) > 0 && r.Intn(3) == 0 {
+			j := r.Intn(len(ek))
+			sc.Items[i].ErrKind = ek[j]
+			ek = append(ek[:j], ek[j+1:]...)
+		}
+	}
 	if sc.Entry != "Finish" && sc.Entry != "FinishVoid" && sc.N > 0 && r.Intn(4) == 0 {
 		used := map[int]bool{}
 		for _, kind := range c07SpecialKinds {
